@@ -187,6 +187,11 @@ def gen_cases(tier, seed):
         c = _gen_case(r, f'C01-{tier[0]}{seed}-kf{k:03d}', tier,
                       known_bucket=True)
         cases.append(c)
+    # fixed exhibit of the open finding F13: wicks(c_r a+_r a_q, deltas evaluated)
+    cases.append({'id': f'C01-{tier[0]}{seed}-kf-exhibit', 'mode': 'einstein',
+                  'groups': [[False, [['c', 'r'], ['a', 'q']]]],
+                  'coeffs': [{'t': 'non', 'name': 'c', 'up': ['r']}],
+                  'flag': True, 'rules': None, 'model': [2, 2], 'mseed': 12345})
     pls = PIPELINES
     for name, cost in pls:
         cases.append({'id': f'C01-{tier[0]}{seed}-pipe-{name}', 'mode': 'pipeline',
